@@ -1,4 +1,5 @@
 import Dmn.Lemmas.TemporalImpl
+import Dmn.Lemmas.TemporalBuiltins
 
 /-!
 # C15 — dates, date-times and durations follow the calendar and the UTC time line
@@ -328,6 +329,210 @@ theorem property_access (d : Date) (t : Time) (o : Option Int) :
     (timeZoneOf ⟨d, t⟩ = match t.z with | .zone n => some n | _ => none) := by
   unfold timeOffsetOf timeZoneOf
   cases t.z <;> simp
+
+/-! ## Properties of a date and time are those of its LOCAL date and time -/
+
+/-- The weekday of a date and time is the calendar weekday of its own (local) date — for every
+year, every time of day, every offset and zone; the instant on the UTC line plays no part. -/
+theorem datetime_weekday_local (dt : DateTime) :
+    dt.weekday = .val (weekday (daysFromCivil dt.date.y dt.date.m dt.date.d)) := by
+  unfold DateTime.weekday
+  exact weekday_eq dt.date
+
+/-- Two date-times with the same date have the same weekday, whatever their times and zones:
+`2021-01-01T23:30:00-05:00` (already 2 January in UTC) is a Friday like `2021-01-01T00:30:00+13:00`
+(still 31 December in UTC). -/
+theorem datetime_weekday_offset_independent (d : Date) (t1 t2 : Time) :
+    (⟨d, t1⟩ : DateTime).weekday = (⟨d, t2⟩ : DateTime).weekday := by
+  rw [datetime_weekday_local, datetime_weekday_local]
+
+example : (⟨⟨2021, 1, 1⟩, ⟨23, 30, 0, 0, .offset (-18000)⟩⟩ : DateTime).weekday = .val 5 ∧
+    (⟨⟨2021, 1, 1⟩, ⟨0, 30, 0, 0, .offset 46800⟩⟩ : DateTime).weekday = .val 5 := by decide
+
+/-- Every property of a date and time is read from the value as written: year, month, day, hour,
+minute and second are its components, `weekday` is the calendar's for its date, `time offset` is
+the written offset (zero for UTC, nothing for a local time, the zone's offset at that local time for
+a named zone), `timezone` the written zone name — none of them depends on the UTC instant. -/
+theorem datetime_properties_local (dt : DateTime) (o : Option Int) :
+    dtProperty dt o .year = .num dt.date.y ∧ dtProperty dt o .month = .num dt.date.m ∧
+    dtProperty dt o .day = .num dt.date.d ∧
+    dtProperty dt o .weekday = .num (weekday (daysFromCivil dt.date.y dt.date.m dt.date.d)) ∧
+    dtProperty dt o .hour = .num dt.time.h ∧ dtProperty dt o .minute = .num dt.time.mi ∧
+    dtProperty dt o .second = .num dt.time.s ∧
+    dtProperty dt o .timeOffset =
+      (match dt.time.z with
+        | .utc => .offset 0 | .localZ => .null | .offset n => .offset n
+        | .zone _ => match o with | some n => .offset n | none => .null) ∧
+    dtProperty dt o .timezone = (match dt.time.z with | .zone n => .str n | _ => .null) := by
+  refine ⟨rfl, rfl, rfl, ?_, rfl, rfl, rfl, ?_, ?_⟩
+  · unfold dtProperty
+    simp only [datetime_weekday_local, PropVal.ofRes]
+  · unfold dtProperty timeOffsetOf
+    cases dt.time.z <;> simp
+    cases o <;> simp
+  · unfold dtProperty timeZoneOf
+    cases dt.time.z <;> simp
+
+/-- The properties of a date: its components and the calendar's weekday, for every year. -/
+theorem date_properties (d : Date) :
+    dateProperty d .year = .num d.y ∧ dateProperty d .month = .num d.m ∧ dateProperty d .day = .num d.d ∧
+    dateProperty d .weekday = .num (weekday (daysFromCivil d.y d.m d.d)) := by
+  refine ⟨rfl, rfl, rfl, ?_⟩
+  unfold dateProperty
+  simp only [weekday_eq, PropVal.ofRes]
+
+/-- The properties of a time are the written hour, minute and second (not those of the same
+instant in UTC), its written offset and zone name. -/
+theorem time_properties_local (t : Time) (today : Date) (o : Option Int) :
+    timeProperty t today o .hour = .num t.h ∧ timeProperty t today o .minute = .num t.mi ∧
+    timeProperty t today o .second = .num t.s ∧
+    (∀ n, t.z = .offset n → timeProperty t today o .timeOffset = .offset n) ∧
+    (t.z = .utc → timeProperty t today o .timeOffset = .offset 0) ∧
+    (t.z = .localZ → timeProperty t today o .timeOffset = .null) := by
+  refine ⟨rfl, rfl, rfl, ?_, ?_, ?_⟩
+  · intro n h; simp [timeProperty, dtProperty, timeOffsetOf, h]
+  · intro h; simp [timeProperty, dtProperty, timeOffsetOf, h]
+  · intro h; simp [timeProperty, dtProperty, timeOffsetOf, h]
+
+/-! ## Weekday by Zeller's congruence; day of year; ISO-8601 week (specification of the calendar built-ins) -/
+
+/-- The weekday computed from the day number (days since 1970-01-01, Monday = 1) is the weekday
+Zeller's congruence gives (0 = Saturday … 6 = Friday there), for every month 1…12 of every year
+in `Int` and every day number — two independent routes to `day of week`. -/
+theorem weekday_zeller (y m d : Int) (h1 : 1 ≤ m) (h12 : m ≤ 12) :
+    weekday (daysFromCivil y m d) = (zeller y m d + 5) % 7 + 1 := by
+  rw [daysFromCivil_closed]
+  have hm : m = 1 ∨ m = 2 ∨ m = 3 ∨ m = 4 ∨ m = 5 ∨ m = 6 ∨ m = 7 ∨ m = 8 ∨ m = 9 ∨ m = 10 ∨
+      m = 11 ∨ m = 12 := by omega
+  have e1 : ∀ t : Int, t / 400 = t / 100 / 4 := by intro t; omega
+  have e2 : ∀ t : Int, t / 4 = 25 * (t / 100) + t % 100 / 4 := by intro t; omega
+  have a1 := e1 y
+  have a2 := e2 y
+  have b1 := e1 (y - 1)
+  have b2 := e2 (y - 1)
+  rcases hm with h | h | h | h | h | h | h | h | h | h | h | h <;> subst h <;>
+    simp [weekday, zeller, yearStart, monthStart, mpOf, ypOf] <;> omega
+
+example : weekday (daysFromCivil 2021 1 1) = 5 ∧ zeller 2021 1 1 = 6 ∧ zeller (-400) 2 29 = 3 := by decide
+
+/-- `day of year` runs from 1 on 1 January to 365, or 366 in a leap year, on 31 December. -/
+theorem day_of_year_range (y m d : Int) (hv : validDate y m d = true) :
+    1 ≤ dayOfYear y m d ∧ dayOfYear y m d ≤ (if isLeap y then 366 else 365) :=
+  dayOfYear_bounds y m d hv
+
+theorem day_of_year_ends (y : Int) :
+    dayOfYear y 1 1 = 1 ∧ dayOfYear y 12 31 = (if isLeap y then 366 else 365) ∧
+    dayOfYear y 3 1 = (if isLeap y then 61 else 60) := by
+  have h := jan1_succ y
+  have e : daysFromCivil (y + 1) 1 1 = daysFromCivil y 12 31 + 1 := by
+    rw [daysFromCivil_closed, daysFromCivil_closed]
+    have hs := yearStart_succ (y - 1)
+    have e3 : y - 1 + 1 = y := by omega
+    rw [e3] at hs
+    simp [ypOf, mpOf, monthStart]
+    omega
+  have e2 : daysFromCivil y 3 1 = daysFromCivil y 1 1 + (if isLeap y then 60 else 59) := by
+    rw [daysFromCivil_closed, daysFromCivil_closed]
+    have hs := yearStart_succ (y - 1)
+    have e3 : y - 1 + 1 = y := by omega
+    rw [e3] at hs
+    simp [ypOf, mpOf, monthStart]
+    split at hs <;> rename_i hl <;> simp [hl] <;> omega
+  unfold dayOfYear
+  refine ⟨by omega, ?_, ?_⟩
+  · split at h <;> rename_i hl <;> simp [hl] <;> omega
+  · split at e2 <;> rename_i hl <;> simp [hl] <;> omega
+
+/-- The day of the year determines the date within its year: counting `day of year − 1` days from
+1 January gives the date back; consecutive days have consecutive ordinals. -/
+theorem day_of_year_determines (y m d : Int) (hv : validDate y m d = true) :
+    civilFromDays (daysFromCivil y 1 1 + (dayOfYear y m d - 1)) = (y, m, d) := by
+  have e : daysFromCivil y 1 1 + (dayOfYear y m d - 1) = daysFromCivil y m d := by
+    unfold dayOfYear; omega
+  rw [e]
+  exact civilFromDays_daysFromCivil y m d hv
+
+example : validDate 2024 12 31 = true ∧ dayOfYear 2024 12 31 = 366 ∧ dayOfYear 2023 3 1 = 60 := by decide
+
+/-- ISO-8601: all seven days Monday … Sunday of a week have the same week-numbering year and
+week number. -/
+theorem iso_week_constant_on_week (z k : Int) (hk0 : 0 ≤ k) (hk : k ≤ 6) (hmon : weekday z = 1) :
+    isoWeekOfDay (z + k) = isoWeekOfDay z := by
+  unfold isoWeekOfDay
+  rw [isoThursday_same_week z k hk0 hk hmon]
+
+example : weekday (daysFromCivil 2020 12 28) = 1 ∧
+    isoWeekOfDay (daysFromCivil 2020 12 28) = (2020, 53) ∧ isoWeekOfDay (daysFromCivil 2021 1 3) = (2020, 53) ∧
+    isoWeekOfDay (daysFromCivil 2021 1 4) = (2021, 1) := by decide
+
+/-- ISO-8601: 4 January always lies in week 1 of its own year (week 1 is the week with the year's
+first Thursday). -/
+theorem iso_week_jan4 (y : Int) : isoWeekOfDay (daysFromCivil y 1 4) = (y, 1) := by
+  have h4 : daysFromCivil y 1 4 = daysFromCivil y 1 1 + 3 := by
+    have := daysFromCivil_add_day y 1 1 3
+    simpa using this
+  have hn := jan1_succ y
+  obtain ⟨_, hlo, hhi⟩ := isoThursday_facts (daysFromCivil y 1 4)
+  have hy : (civilFromDays (isoThursday (daysFromCivil y 1 4))).1 = y := by
+    apply year_of_day
+    · omega
+    · split at hn <;> omega
+  unfold isoWeekOfDay
+  simp only [hy]
+  congr 1
+  omega
+
+/-- The week number lies in 1 … 53, and the week-numbering year is the calendar year of the
+week's Thursday: at most one year away from the calendar year of the day itself. -/
+theorem iso_week_range (z : Int) :
+    1 ≤ (isoWeekOfDay z).2 ∧ (isoWeekOfDay z).2 ≤ 53 ∧
+    (civilFromDays z).1 - 1 ≤ (isoWeekOfDay z).1 ∧ (isoWeekOfDay z).1 ≤ (civilFromDays z).1 + 1 := by
+  obtain ⟨_, hlo, hhi⟩ := isoThursday_facts z
+  obtain ⟨a0, a1⟩ := day_in_its_year (isoThursday z)
+  obtain ⟨b0, b1⟩ := day_in_its_year z
+  have hn := jan1_succ (civilFromDays (isoThursday z)).1
+  have hlen : daysFromCivil ((civilFromDays (isoThursday z)).1 + 1) 1 1 ≤
+      daysFromCivil (civilFromDays (isoThursday z)).1 1 1 + 366 := by
+    split at hn <;> omega
+  unfold isoWeekOfDay
+  simp only
+  have c1 := jan1_succ ((civilFromDays (isoThursday z)).1 + 1)
+  have c2 := jan1_succ ((civilFromDays z).1 + 1)
+  refine ⟨by omega, by omega, ?_, ?_⟩
+  · -- the Thursday is at most three days before `z`: its year is not more than one year earlier
+    by_cases h : (civilFromDays (isoThursday z)).1 + 1 + 1 ≤ (civilFromDays z).1
+    · have hm := jan1_mono h
+      exfalso
+      split at c1 <;> omega
+    · omega
+  · by_cases h : (civilFromDays z).1 + 1 + 1 ≤ (civilFromDays (isoThursday z)).1
+    · have hm := jan1_mono h
+      exfalso
+      split at c2 <;> omega
+    · omega
+
+/-- From one week to the next the week number goes up by one, or the next week is week 1 of the
+next week-numbering year. -/
+theorem iso_week_next (z : Int) :
+    isoWeekOfDay (z + 7) = ((isoWeekOfDay z).1, (isoWeekOfDay z).2 + 1) ∨
+    isoWeekOfDay (z + 7) = ((isoWeekOfDay z).1 + 1, 1) := by
+  obtain ⟨a0, a1⟩ := day_in_its_year (isoThursday z)
+  have hn := jan1_succ (civilFromDays (isoThursday z)).1
+  have hn2 := jan1_succ ((civilFromDays (isoThursday z)).1 + 1)
+  unfold isoWeekOfDay
+  simp only [isoThursday_next_week]
+  by_cases h : isoThursday z + 7 < daysFromCivil ((civilFromDays (isoThursday z)).1 + 1) 1 1
+  · left
+    have hy := year_of_day (civilFromDays (isoThursday z)).1 (isoThursday z + 7) (by omega) h
+    rw [hy]
+    congr 1
+    omega
+  · right
+    have hy := year_of_day ((civilFromDays (isoThursday z)).1 + 1) (isoThursday z + 7) (by omega)
+      (by split at hn2 <;> omega)
+    rw [hy]
+    congr 1
+    omega
 
 /-! ## `date(y, m, d)` from numbers -/
 
